@@ -1190,6 +1190,24 @@ def rule_lexer_args(repo, res):
                 kw = {k.arg: k.value for k in call.keywords if k.arg}
                 g = kw.get("g", call.args[1] if len(call.args) > 1 else None)
                 d = kw.get("d", call.args[2] if len(call.args) > 2 else None)
+                # the text: the parameter of the method itself, never rebound before the call (the strict parsers lex the
+                # caller's text as it is; the permissive subclass does its documented rewrite in its own parse() and hands the
+                # result on to this one)
+                params = [a.arg for a in fn0.args.args if a.arg != "self"]
+                text = call.args[0] if call.args else kw.get("s")
+                rebound = [x for x in ast.walk(fn0) if isinstance(x, (ast.Assign, ast.AugAssign, ast.AnnAssign))
+                           and any(isinstance(t, ast.Name) and params and t.id == params[0]
+                                   for t in (x.targets if isinstance(x, ast.Assign) else [x.target]))]
+                if cname == "PVLParser" and params:
+                    ok = isinstance(text, ast.Name) and text.id == params[0] and not rebound
+                    res.oblige("LEXER-ARGS", f"{cname}.{mname}: the lexer gets the text parameter `{params[0]}` itself, unchanged", ok=ok)
+                    if not ok:
+                        what_ = f"`{norm(rebound[0], 60)}` rewrites the text first" if rebound else f"the lexer gets `{norm(text, 60) if text is not None else '<nothing>'}`"
+                        res.add(Finding("LEXER-ARGS", f"{cname}.{mname}", "the text is changed before it is lexed",
+                                        f"{cname}.{mname}: {what_}: the strict parsers read the caller's text as it is -- a rewrite of "
+                                        "the whole document also rewrites what stands inside quoted strings and comments (line ends, "
+                                        "leading characters), so values read back differently and characters outside the dialect's "
+                                        "set can vanish before the lexer sees them", where=f"pvl/parser.py:{(rebound[0] if rebound else call).lineno}"))
                 for what, got, want in (("grammar (g)", g, "self.grammar"), ("decoder (d)", d, "self.decoder")):
                     ok = got is not None and norm(got) == want
                     res.oblige("LEXER-ARGS", f"{cname}.{mname}: the lexer gets {want} as its {what}", ok=ok)
